@@ -5,6 +5,7 @@ extern crate tsrun;
 
 mod gcmiri;
 mod entry;
+mod errloc;
 mod gcreplay;
 mod lifecycle;
 mod modules;
@@ -24,6 +25,7 @@ fn main() {
         "pathnorm" => pathnorm::main(&rest),
         "gcreplay" => gcreplay::main(&rest),
         "gctrace" => gctrace::main(&rest),
+        "errloc" => errloc::main(&rest),
         "entry" => entry::main(&rest),
         "lifecycle" => lifecycle::main(&rest),
         "prog" => prog::main(&rest),
